@@ -21,6 +21,7 @@ import (
 
 func init() {
 	vs.RegisterHarness("VerifC14BandtssAllocate", VerifC14BandtssAllocate)
+	vs.RegisterHarness("VerifC14BandtssRewardPercentageRange", VerifC14BandtssRewardPercentageRange)
 }
 
 var c14Denoms = []string{"uband", "uusd"}
@@ -187,4 +188,31 @@ func VerifC14BandtssAllocate() {
 		vs.Assert("community-pool-at-least-tax", rest.Cmp(taxCoins) >= 0)
 	}
 	vs.Assert("only-known-accounts-touched", len(bank.Bal) <= 2+nMembers)
+}
+
+// VerifC14BandtssRewardPercentageRange: whatever SetParams accepts as reward percentage must not make the
+// begin-block allocation fail.
+func VerifC14BandtssRewardPercentageRange() {
+	key := storetypes.NewKVStoreKey(types.StoreKey)
+	ctx := venv.NewContext(key)
+	bank := venv.NewBank()
+	distr := venv.NewDistr(bank, sdkmath.LegacyNewDecWithPrec(2, 2))
+	gid := tss.GroupID(7)
+	addr := venv.Addr(1)
+	tk := &c14TSS{gid: gid, de: map[string]tsstypes.DEQueue{string(addr): {Head: 0, Tail: 1}}}
+	tk.members = []tsstypes.Member{{ID: 1, GroupID: gid, Address: addr.String(), IsActive: true}}
+	k := NewKeeper(venv.Codec(), key, venv.AuthM{}, bank, distr, tk, venv.Addr(9).String(), authtypes.FeeCollectorName)
+
+	p := types.DefaultParams()
+	pct := vs.U64("reward_percentage")
+	p.RewardPercentage = pct
+	vs.Assume(pct <= 1000)                // keeps the decimal arithmetic small; Validate has no bound at all
+	vs.Assume(k.SetParams(ctx, p) == nil) // accepted by Params.Validate
+	k.SetCurrentGroup(ctx, types.NewCurrentGroup(gid, time.Unix(100, 0)))
+	bank.Set(venv.ModuleAddr(authtypes.FeeCollectorName), sdk.NewCoins(sdk.NewInt64Coin(c14Denoms[0], 1000)))
+
+	err := k.AllocateTokens(ctx)
+	vs.Reach("in-range", pct <= 100)
+	vs.Known("C14-reward-percentage-unbounded", pct > 100)
+	vs.Assert("accepted-percentage-never-halts-begin-block", err == nil)
 }
